@@ -266,7 +266,7 @@ pub(crate) mod verif_wrap {
         if ctlen < 16 {
             assert!(r.is_err(), "[C09,C19] input shorter than a tag is an error, not a panic");
         } else {
-            assert!(c.n == 1, "[C19] exactly one open per call");
+            assert!(c.n == 1, "[C19,C03,C02] exactly one open per call: every input of at least 16 bytes is authenticated by the primitive, also a bare tag");
             assert!(c.key == key, "[C19] key forwarded");
             let le = ctr.to_le_bytes();
             assert!(c.nonce[0] == 0 && c.nonce[1] == 0 && c.nonce[2] == 0 && c.nonce[3] == 0, "[C19,C06] nonce starts with 4 zero bytes");
@@ -334,7 +334,7 @@ pub(crate) mod verif_wrap {
             if n < 16 {
                 assert!(r.is_err(), "[C09,C19] input shorter than a tag is an error, not a panic");
             } else {
-                assert!(c.n == 1 && c.key == key && c.nonce == nonce, "[C19,C15] open gets the caller's key and nonce");
+                assert!(c.n == 1 && c.key == key && c.nonce == nonce, "[C19,C15,C03] open gets the caller's key and nonce (every input of at least 16 bytes is authenticated by the primitive, also a bare tag)");
                 assert!(c.inp == buf.as_ptr() && c.inlen == n && c.ad_some && c.ad == adb.as_ptr() && c.adlen == 4, "[C19,C15] open gets ciphertext and Some(aad)");
                 assert!(r.is_err() == unsafe { RET_ERR }, "[C19,C15] rejection reported");
             }
@@ -497,6 +497,48 @@ pub(crate) mod verif_wrap {
         assert!(TAG_SIZE == 16, "[C06] tag size is 16");
         assert!(crate::encrypt::verif_enc::prologue() == [0x65, 0x67, 0x6b, 0x10], "[C06] key-mode magic");
         assert!(crate::encrypt::verif_enc::pass_magic() == [0x65, 0x67, 0x6b, 0x20], "[C06] password-mode magic");
+    }
+}
+
+// C07: secure_random hands out fresh CSPRNG output on every call.
+#[allow(dead_code, static_mut_refs, unused_imports, unused_variables, unused_mut)]
+pub(crate) mod verif_rng {
+    use super::*;
+    pub static mut FILLS: usize = 0;
+    /// E-RNG: every byte the CSPRNG produces is fresh. Modelled by stamping each 32-byte block it fills with a unique
+    /// serial number (first 8 bytes), the rest unconstrained: two blocks are equal iff they are the same block.
+    pub static mut SERIAL: u64 = 1;
+    pub fn fill_model(dest: &mut [u8]) -> Result<(), getrandom::Error> {
+        unsafe {
+            FILLS += 1;
+            let mut off = 0;
+            while off + 32 <= dest.len() {
+                let r: [u8; 24] = kani::any();
+                dest[off..off + 8].copy_from_slice(&SERIAL.to_be_bytes());
+                dest[off + 8..off + 32].copy_from_slice(&r);
+                SERIAL += 1;
+                off += 32;
+            }
+        }
+        Ok(())
+    }
+    /// Nine consecutive 32-byte draws (more than any plausible internal buffer of 256 bytes holds) are pairwise
+    /// different and each is exactly 32 bytes of CSPRNG output.
+    #[kani::proof]
+    #[kani::stub(getrandom::fill, fill_model)]
+    #[kani::unwind(40)]
+    pub fn c07_secure_random_fresh() {
+        let mut serials = [0u64; 9];
+        let mut i = 0;
+        while i < 9 {
+            let v = secure_random(32);
+            assert!(v.len() == 32, "[C07] secure_random(32) returns 32 bytes");
+            serials[i] = u64::from_be_bytes(v[..8].try_into().unwrap());
+            assert!(serials[i] != 0, "[C07] every byte returned was produced by the CSPRNG");
+            let mut j = 0;
+            while j < i { assert!(serials[j] != serials[i], "[C07] no two draws return the same CSPRNG output (no ephemeral key, payload key, private key or salt is ever handed out twice)"); j += 1; }
+            i += 1;
+        }
     }
 }
 
